@@ -15,7 +15,8 @@ RULE = ("all shapes in {2..5}^3 x 4 anisotropy cases x mu_r on/off x eps_r "
         "thorough: all + random shapes up to 9x7x6 + bounds-checking build); "
         "per operator the full interior edge basis is pushed through "
         "core.amat_x; distinct = (shape, case, mu?, eps?, dtype, width kind) "
-        "whose complete basis reached the oracle")
+        "whose complete basis reached the oracle; plus in situ: every 3rd "
+        "amat_x call of live solves judged on the level it happens on")
 ASSUMPTIONS = [
     "reference operator vf/refop.py is correct (cross-checked against "
     "discretize edge_curl in thorough tier)",
@@ -56,6 +57,14 @@ def plan(tier, seed):
         batches.append({'id': 'discretize', 'mode': 'xcheck', 'n': 20})
     else:
         batches.append({'id': 'rand', 'mode': 'rand', 'n': 6, 'k': 0})
+    nin = 8 if tier == 'quick' else 48
+    for k in range(nin):
+        batches.append({'id': f'insitu{k}', 'mode': 'insitu', 'k': k,
+                        'n': 6 if tier == 'quick' else 20})
+    if tier == 'thorough':
+        for k in range(8):
+            batches.append({'id': f'insitubc{k}', 'mode': 'insitu',
+                            'k': 500+k, 'n': 6, 'boundscheck': True})
     return batches
 
 
@@ -249,9 +258,86 @@ def xcheck_discretize(rec, r):
     _ = (mui, mu_0)
 
 
+def insitu(rec, seed, k, i, tier):
+    """Judge every 3rd call of core.amat_x made by a live solve, on whatever
+    multigrid level it happens (coarse models, aliased anisotropy arrays)."""
+    import contextlib
+    import io
+    import emg3d
+    from emg3d import core
+    from vf import refop
+    r = gen.rng(seed, 'C02', 'insitu', k, i)
+    sizes = [4, 6, 8, 8, 12, 16] if tier == 'quick' else [4, 6, 8, 12, 16, 20,
+                                                          24, 32]
+    shape = tuple(int(gen.choice(r, sizes)) for _ in range(3))
+    gs = gen.grid_spec(r, shape)
+    ms = gen.model_spec(r, shape)
+    freq = gen.frequency(r)
+    grid, model = gen.build_emg3d(gs, ms)
+    src = (float(np.mean(grid.nodes_x[1:-1])), float(np.mean(grid.nodes_y[1:-1])),
+           float(np.mean(grid.nodes_z[1:-1])), 30.0, 20.0)
+    sf = emg3d.get_source_field(grid, src, freq)
+    kw = {'sslsolver': gen.choice(r, [False, True, 'gcrotmk']),
+          'semicoarsening': gen.choice(r, [False, True, 1, 2, 3, 123]),
+          'linerelaxation': gen.choice(r, [False, True, 4, 7]),
+          'cycle': gen.choice(r, ['F', 'V', 'W']), 'maxit': 3, 'verb': -1}
+    case = {'k': k, 'i': i, 'shape': shape, 'kw': kw, 'frequency': freq,
+            'case': ms['case']}
+    orig = core.amat_x
+    state = {'n': 0}
+    cache = {}
+
+    def w_amat(rx, ry, rz, ex, ey, ez, eta_x, eta_y, eta_z, zeta, hx, hy, hz):
+        state['n'] += 1
+        if state['n'] % 3 != 1:
+            return orig(rx, ry, rz, ex, ey, ez, eta_x, eta_y, eta_z, zeta, hx,
+                        hy, hz)
+        r0 = np.r_[rx.ravel('F'), ry.ravel('F'), rz.ravel('F')]
+        ev = np.r_[ex.ravel('F'), ey.ravel('F'), ez.ravel('F')]
+        orig(rx, ry, rz, ex, ey, ez, eta_x, eta_y, eta_z, zeta, hx, hy, hz)
+        r1 = np.r_[rx.ravel('F'), ry.ravel('F'), rz.ravel('F')]
+        key = (len(hx), len(hy), len(hz), id(eta_x), id(zeta))
+        if key not in cache:
+            cache.clear()
+            cache[key] = refop.RefOp(hx, hy, hz, None, None, None, 1.0,
+                                     volume_arrays={'eta_x': eta_x,
+                                                    'eta_y': eta_y,
+                                                    'eta_z': eta_z,
+                                                    'zeta': zeta})
+        ref = cache[key]
+        want = -(ref.A @ ev)
+        got = r1 - r0
+        inn = ref.interior
+        # rounding of forming r0 - A e (cancellation) bounds the comparison
+        scale = float((abs(ref.A) @ np.abs(ev) + np.abs(r0)).max()) + 1e-300
+        d = float(np.abs(got[inn] - want[inn]).max()/scale) if inn.any() else 0.
+        rec.event('insitu_amat_x_calls')
+        rec.margin('insitu_rel_err', d)
+        lvl = (len(hx), len(hy), len(hz))
+        rec.distinct(('insitu', lvl, ms['case'], str(ev.dtype),
+                      eta_y is eta_x, eta_z is eta_x))
+        if not (d <= 1e-12):
+            rec.violation('C02:entry-mismatch', f'in situ: amat_x on level '
+                          f'grid {lvl} differs from the assembled operator by '
+                          f'{d:.3e} (relative to the terms of the sum)', case)
+
+    core.amat_x = w_amat
+    try:
+        with contextlib.redirect_stdout(io.StringIO()):
+            emg3d.solve(model, sf, **kw)
+    finally:
+        core.amat_x = orig
+    rec.case()
+    rec.event('insitu_solves')
+
+
 def run_batch(batch):
     rec = common.Rec()
     seed = batch['seed']
+    if batch['mode'] == 'insitu':
+        for i in range(batch['n']):
+            insitu(rec, seed, batch['k'], i, batch['tier'])
+        return rec.result()
     if batch['mode'] == 'enum':
         for c in batch['combos']:
             r = gen.rng(seed, 'C02', c['i'])
@@ -280,4 +366,4 @@ def finalize(merged, tier):
     common.require_events(merged, {
         'amat_x_calls': 5000, 'entries_compared': 100000,
         'symmetry_checks': 50, 'gradient_null_checks': 200,
-        'pyfunc_columns': 100})
+        'pyfunc_columns': 100, 'insitu_amat_x_calls': 150})
